@@ -27,6 +27,8 @@ class Abort(BaseException):
 
 
 CUR = None  # the active path context
+DUMP_EVERY = 0   # >0: every n-th discharged VC is dumped as SMT-LIB2 for the second solver
+_VC_COUNTER = [0]
 
 
 def cur():
@@ -55,6 +57,7 @@ class Path:
         self.notes = []
         self.inconclusive = 0
         self.nvars = 0
+        self.dumped = []
 
     # ---- solver plumbing
     def _check(self, *extra):
@@ -188,6 +191,13 @@ class Path:
             return ("fails", self.witness())
         r = self._check(z3.Not(formula))
         if r == z3.unsat:
+            if DUMP_EVERY:
+                _VC_COUNTER[0] += 1
+                if _VC_COUNTER[0] % DUMP_EVERY == 0 and len(self.dumped) < 2:
+                    try:
+                        self.dumped.append(self.smt2(formula))
+                    except Exception:
+                        pass
             return ("holds", None)
         if r == z3.sat:
             return ("fails", self.solver.model())
@@ -215,7 +225,7 @@ def explore_subtree(harness, on_path, prefix, budget=None, timeout_ms=20000):
     """DFS below `prefix`.  returns (stats dict, leftover prefixes).  on_path(path, result, exc)."""
     global CUR
     stack = [list(prefix)]
-    st = dict(paths=0, forks2=0, checks=0, solver_s=0.0, aborted=0, inconclusive=0)
+    st = dict(paths=0, forks2=0, checks=0, solver_s=0.0, aborted=0, inconclusive=0, smt2=[])
     first = True
     while stack:
         if budget is not None and st["paths"] >= budget:
@@ -244,6 +254,8 @@ def explore_subtree(harness, on_path, prefix, budget=None, timeout_ms=20000):
         st["checks"] += p.n_checks
         st["solver_s"] += p.solver_s
         st["inconclusive"] += p.inconclusive
+        if p.dumped and len(st["smt2"]) < 10:
+            st["smt2"].extend(p.dumped)
         stack.extend(p.alts)
         CUR = None
     return st, stack
